@@ -292,7 +292,7 @@ def _mutate(ctx, d, pgpy):
     import copy
     # secret keys that arrived with old-format headers, protected in place with every cipher block size: the packet grows by
     # S2K specifier + IV + SHA-1, possibly exactly onto a length-width boundary
-    for kname in pool.SIGNERS + ['ecdsa_p521_1', 'ecdsa_p521_2', 'cv25519_0', 'ecdh_p521_0']:
+    for kname in pool.SIGNERS + ['ecdsa_p521_1', 'ecdsa_p521_2', 'cv25519_0', 'ecdh_p521_0', 'ecdsa_p521_short', 'ecdh_p521_short', 'ecdsa_p256_short']:
         for calg in ('AES256', 'CAST5', 'TripleDES', 'Camellia192'):
             pk = pgpy.PGPKey.from_blob(pool.secret_packet(kname, hdr='old'))[0]
             pk.protect('pw', getattr(pgpy.constants.SymmetricKeyAlgorithm, calg), pgpy.constants.HashAlgorithm.SHA1)
